@@ -5,19 +5,20 @@
 #   log     a call without effect on the model (the shape of an added log line) starts every function body
 #   logall  the same at the start of every block (if/else/for/case bodies)
 #   negif   `if c {A} else {B}` becomes `if !(c) {B} else {A}`
+#   hoist   `f(a, g(x))` as a statement becomes `t := g(x); f(a, t)`
 #   guard   a trailing `if c {A}` of a loop body becomes `if !(c) { continue }; {A}`
 # Evidence is written to a scratch directory, not to /verif/evidence.
 # usage: rename_check.sh [rename|log|logall]...   (default: all three)
 set -u
 export GOFLAGS=-mod=mod GOPROXY=off GOSUMDB=off GOTOOLCHAIN=local
 cd /verif/checker && go build -o ../bin/renamer ./cmd/renamer || exit 2
-modes="${*:-rename log logall negif guard}"
+modes="${*:-rename log logall negif guard hoist}"
 rc=0
 for mode in $modes; do
 rm -rf /tmp/rename-repo /tmp/rename-verif && mkdir -p /tmp/rename-repo /tmp/rename-verif
 rsync -a --exclude .git /repo/ /tmp/rename-repo/
 cp /verif/known_findings.json /tmp/rename-verif/
-if [ "$mode" = rename ]; then /verif/bin/renamer /repo /tmp/rename-repo; else /verif/bin/renamer /repo /tmp/rename-repo $mode; fi
+if [ "$mode" = rename ]; then /verif/bin/renamer /repo /tmp/rename-repo; else /verif/bin/renamer /repo /tmp/rename-repo $mode; fi || { echo "$mode: transformation failed"; exit 2; }
 (cd /tmp/rename-repo && go build ./pkg/... ) || { echo "$mode: copy does not build"; exit 2; }
 for p in $(python3 -c "import json;print(' '.join(c['property_id'] for c in json.load(open('/verif/MANIFEST.json'))['checks']))"); do
   out=$(/verif/bin/hapverif check --property $p --repo /tmp/rename-repo --verif /tmp/rename-verif 2>&1 | grep -E "^  (VIOLATED|UNDECIDED|ANALYSIS-FAILURE|ANCHOR-MISSING)")
